@@ -10,7 +10,10 @@ What is assumed, and where:
     acknowledged momentum, account chain up to the stated previous block, block). That the Go VM reads nothing else is the
     correspondence side of C02 (multi-node streams) and the nondeterminism-site fact of `Props/C02.lean`.
   * about block identifiers: no collision among the blocks that occur in the two operation sequences (`NoCollision`;
-    for the code: SHA3 collision freedom). Needed wherever a node recognises a block by its identifier (`GetPatch`).
+    for the code: SHA3 collision freedom AND that the identifier covers every field that reaches the stored bytes or
+    the execution — C13; known finding F9, a user block's ChangesHash field, is a real-code exception to exactly this
+    hypothesis and shows the predicted effect: the node holding the variant refuses the producer's momentum).
+    Needed wherever a node recognises a block by its identifier (`GetPatch`).
   * about the changes hash: injectivity is needed ONLY for `ledger_pinned_by_changes_hash` (nodes whose VMs differ);
     (a), (b), (c) hold for every hash function.
   * about `higherPriority`: nothing — it only decides what gossip leaves in the pool, and the theorems quantify over
